@@ -11,6 +11,9 @@ SPELL = [lambda h: h, lambda h: "./" + h, lambda h: "x/../" + h, lambda h: "./x/
 def spell_reads(rnd, creads):
     return [rnd.choice(SPELL)(h) for h in creads]
 
+def shuffled(rnd, q):
+    q = list(q); rnd.shuffle(q); return q
+
 class Project:
     """A small C-like project whose declared graph can be edited between invocations."""
     def __init__(self, rnd, idx):
@@ -19,6 +22,7 @@ class Project:
         self.headers = ["h1.h", "h2.h", "inc/h3.h"]
         self.gen_header = rnd.random() < 0.4
         self.steps = []      # list of dict protos
+        self.private = []
         self.next_obj = 1
         nobj = rnd.randint(1, 3)
         if self.gen_header:
@@ -33,12 +37,15 @@ class Project:
         self.stamp = rnd.random() < 0.3
         self.alias = rnd.random() < 0.4
         self.msvc = False
+        # a step that mentions the headers as declared inputs (in another order than commands
+        # report them): file numbering inside n2 then differs from report order
+        self.hdrcheck = rnd.random() < 0.35
 
     def add_obj(self):
         rnd = self.rnd
         i = self.next_obj; self.next_obj += 1
-        creads = [h for h in self.headers if rnd.random() < 0.5
-                  and h not in getattr(self, "headers_gone", set())]
+        creads = shuffled(rnd, [h for h in self.headers if rnd.random() < 0.5
+                                and h not in getattr(self, "headers_gone", set())])
         oo = []
         if self.gen_header and rnd.random() < 0.6:
             creads.append("gh.h"); oo.append("gh.h")
@@ -47,11 +54,21 @@ class Project:
         if rnd.random() < 0.15 and creads:
             creads.append(creads[0])          # duplicate report
         msvc = rnd.random() < 0.2
+        eff = {"kind": "write", "creads": creads, "reads": spell_reads(rnd, creads)}
+        if rnd.random() < 0.25:
+            # a private header that the command itself rewrites while it runs (the discovered
+            # counterpart of a step modifying its own declared input)
+            ph = "priv%d.h" % i
+            eff["creads"] = creads + [ph]; eff["reads"] = eff["reads"] + [ph]
+            eff["selfdisc"] = ph
+            self.private.append(ph)
+        if rnd.random() < 0.3:
+            # the source itself is generated: the compile has a generated dirtying input
+            self.steps.append(dict(kind="gensrc", outs=["c%d.c" % i], ins=["c%d.y" % i],
+                                   cmd="yacc v1 c%d" % i, eff={"kind": rnd.choice(["write", "keep"]), "reads": []}))
         self.steps.append(dict(kind="obj", i=i, outs=["o%d.o" % i], ins=["c%d.c" % i], oo=oo,
                                depfile="" if msvc else "o%d.o.d" % i, msvc=msvc,
-                               cmd="cc v1 c%d" % i,
-                               eff={"kind": "write", "creads": creads,
-                                    "reads": spell_reads(rnd, creads)}))
+                               cmd="cc v1 c%d" % i, eff=eff))
 
     def objs(self):
         return [s for s in self.steps if s["kind"] == "obj"]
@@ -68,6 +85,11 @@ class Project:
                     rsp="bin.rsp" if self.use_rsp else "", rspc=self.rspc if self.use_rsp else "",
                     eff={"kind": "write", "reads": []})
         steps.append(link)
+        if self.hdrcheck:
+            hs = [h for h in reversed(self.headers) if h not in getattr(self, "headers_gone", set())]
+            if hs:
+                chk = step(["hdr.ok"], hs, cmd="check-headers", eff={"kind": "write", "reads": []})
+                steps.insert(getattr(self, "hdrpos", 0) % (len(steps) + 1), chk)
         if self.stamp:
             steps.append(step(["stamp"], ["stamp.in"], oo=["bin"], cmd="stamp v1",
                               eff={"kind": "write", "reads": []}))
@@ -89,7 +111,7 @@ def history(rnd, idx, tier):
     for f in sources(g):
         ops.append({"op": "write", "path": f})
     # headers that may be reported but are not declared anywhere
-    for h in p.headers:
+    for h in p.headers + p.private:
         ops.append({"op": "write", "path": h})
     ops.append(invoke([], j=rnd.randint(1, 3)))
     nsteps = rnd.randint(2, 6) if tier == "quick" else rnd.randint(3, 9)
@@ -131,21 +153,34 @@ def history(rnd, idx, tier):
             s = rnd.choice(p.objs())
             pool = [h for h in p.headers if h not in getattr(p, "headers_gone", set())] \
                    + (["gh.h"] if "gh.h" in s.get("oo", []) else [])
-            creads = [h for h in pool if rnd.random() < 0.5]
+            creads = shuffled(rnd, [h for h in pool if rnd.random() < 0.5])
+            if s["eff"].get("selfdisc"):
+                creads = creads + [s["eff"]["selfdisc"]]
             s["eff"]["creads"] = creads
-            s["eff"]["reads"] = spell_reads(rnd, creads)
-            ops.append({"op": "write", "path": s["ins"][0]})
+            s["eff"]["reads"] = spell_reads(rnd, creads[:-1]) + creads[-1:] if s["eff"].get("selfdisc") else spell_reads(rnd, creads)
+            src = s["ins"][0]
+            gens = [g2 for g2 in p.steps if src in g2["outs"]]
+            ops.append({"op": "write", "path": gens[0]["ins"][0] if gens else src})
             manifest_changed = True     # same text, new declared behaviour of the command
         elif r < 0.76:
+            npriv = len(p.private)
             p.add_obj(); manifest_changed = True
-            ops.append({"op": "write", "path": "c%d.c" % (p.next_obj - 1)})
+            k = p.next_obj - 1
+            gen = any(q["kind"] == "gensrc" and q["outs"] == ["c%d.c" % k] for q in p.steps)
+            ops.append({"op": "write", "path": ("c%d.y" if gen else "c%d.c") % k})
+            for ph in p.private[npriv:]:
+                ops.append({"op": "write", "path": ph})
         elif r < 0.80 and len(p.objs()) > 1:
-            p.steps.remove(rnd.choice(p.objs())); manifest_changed = True
+            victim = rnd.choice(p.objs())
+            p.steps = [q for q in p.steps if q is not victim and victim["ins"][0] not in q["outs"]]
+            manifest_changed = True
         elif r < 0.92:
             # identity-preserving rewrite of the manifest text (C08)
             n = len(g["steps"])
             which = rnd.random()
-            if which < 0.35:
+            if which < 0.2:
+                p.hdrcheck = not p.hdrcheck; p.hdrpos = rnd.randint(0, 5)   # add/remove an unrelated statement
+            elif which < 0.35:
                 order = list(range(n)); rnd.shuffle(order); p.order = order
             elif which < 0.55:
                 p.style = dict(p.style, rule_prefix=rnd.choice(["r", "rule_", "cc", "x-y."]))
@@ -156,6 +191,15 @@ def history(rnd, idx, tier):
             else:
                 a = rnd.randint(1, n); b = rnd.randint(a, n)
                 st = dict(p.style); st["include"] = (a, b); p.style = st
+            manifest_changed = True
+        elif r < 0.96 and p.objs():
+            # a compile stops (or starts) reporting dependencies: the rule loses its depfile
+            s = rnd.choice(p.objs())
+            if s.get("depfile") or s.get("msvc"):
+                s["saved_dep"] = (s.get("depfile", ""), s.get("msvc", False))
+                s["depfile"] = ""; s["msvc"] = False
+            elif s.get("saved_dep"):
+                s["depfile"], s["msvc"] = s["saved_dep"]
             manifest_changed = True
         else:
             p.multi = not p.multi; manifest_changed = True      # the output set of link changes
@@ -195,7 +239,7 @@ def history(rnd, idx, tier):
 def regen_history(rnd, idx, tier):
     """The manifest is an output of a generator step (C17)."""
     fname = rnd.choice(["build.ninja", "build.ninja", "alt.ninja"])
-    def version(k, nsteps, rewire, cmdv):
+    def version(k, nsteps, rewire, cmdv, pooldepth=None):
         steps = [step([fname], ["gen.in"] + (["gen2.in"] if k % 2 else []), cmd="regen v%d" % cmdv,
                       eff={"kind": "gen", "gen": "cur", "reads": []})]
         for i in range(1, nsteps + 1):
@@ -204,16 +248,21 @@ def regen_history(rnd, idx, tier):
                 ins.append("o%d" % (i - 1))
             if i == 1 and k % 3 == 0:
                 ins.append("gen.in")            # generator input shared with a user target
-            steps.append(step(["o%d" % i], ins, cmd="cmd%d-%d" % (i, cmdv)))
-        g = graph(steps)
+            steps.append(step(["o%d" % i], ins, cmd="cmd%d-%d" % (i, cmdv),
+                              pool="" if pooldepth is None else "pl"))
+        g = graph(steps, pools=[] if pooldepth is None else [("pl", pooldepth)])
         if k % 4 == 1:
             g["defaults"] = ["o1"]
         return g
     versions = {}
     gs = []
+    # split: the user steps live in an included file and the generator rewrites the top-level
+    # manifest only when its text changes (gn / cmake / meson style)
+    split = rnd.random() < 0.4
     nver = rnd.randint(2, 4)
     for k in range(nver):
-        g = version(rnd.randint(0, 5), rnd.randint(1, 3), rnd.random() < 0.5, 1 + (k if rnd.random() < 0.3 else 0))
+        g = version(rnd.randint(0, 5), rnd.randint(1, 3), rnd.random() < 0.5, 1 + (k if rnd.random() < 0.3 else 0),
+                    pooldepth=rnd.choice([None, None, 1, 2, 3]))
         gs.append(g)
     cur = 0
     for k, g in enumerate(gs):
@@ -222,7 +271,12 @@ def regen_history(rnd, idx, tier):
         for s in g["steps"]:
             if s["eff"]["kind"] == "gen":
                 s["eff"]["gen"] = "v%d" % min(k + 1, len(gs) - 1)
-        versions["v%d" % k] = {"text": render_manifest(g), "g": g, "extra": []}
+                s["eff"]["keepmain"] = split
+        if split and len(g["steps"]) > 1:
+            text, extra = render_manifest(g, style={"include": (2, len(g["steps"]))})
+            versions["v%d" % k] = {"text": text, "g": g, "extra": [list(x) for x in extra]}
+        else:
+            versions["v%d" % k] = {"text": render_manifest(g), "g": g, "extra": []}
     ops = [{"op": "manifest", "name": fname, "ver": "v0"}]
     allsrc = set(["gen.in", "gen2.in"])
     for g in gs:
